@@ -12,7 +12,7 @@
      EReqFail fk         the outstanding offset/fetch Deferred fails: 1 (retriable) KafkaError, 2 OffsetOutOfRangeError,
                          3 non-Kafka exception, 4 twisted CancelledError
      EPlan i r           oracle for the NEXT not yet planned processor invocation: before returning, the processor calls
-                         i = 0 nothing / 1 consumer.stop() / 2 consumer.commit(); then r = 0 returns a value / 1 raises /
+                         i = 0 nothing / 1 consumer.stop() / 2 consumer.commit() / 3 consumer.shutdown(); then r = 0 returns a value / 1 raises /
                          2 returns a pending Deferred (the default when no plan is left)
      EProcFire ok        the pending Deferred returned by the processor fires (ok) / fails
      ECommitOk / ECommitFail fk   the outstanding OffsetCommitRequest Deferred fires / fails (fk as above, 5 = IllegalGeneration,
@@ -402,6 +402,27 @@ Definition api_commit : M unit :=
   | Ok CPending => emit (ORet 0)
   end.
 
+(* shutdown(), called by the application or by the processor          consumer.py:341-424.
+   The outcomes held back until the call returns (s_pend) are those of THIS call: the list and the marker found at entry
+   are put back at exit (between events they are [] and 0). *)
+Definition api_shutdown : M unit :=
+  s <- get ;;
+  if negb (is_some (s_startd s)) || s_shutd s then                                 (* 395-399 *)
+    emit (OShutD false X_RESTOP (s_lc s)) ;;; emit (ORet 0)
+  else
+    upd (fun s => set_pend [] (set_inapi 3 (set_shutd true                         (* 402-413 *)
+                    (if s_maxatt s =? 0 then set_susp true (set_maxatt 2 (set_shutting true s)) else set_shutting true s)))) ;;;
+    r <- try (match s_proc s with                                                  (* 417-421 *)
+              | Some (l, rs, _) => upd (set_proc (Some (l, rs, true)))
+              | None => rec KCommitAndStop
+              end) ;;
+    s1 <- get ;;
+    upd (fun s' => set_pend (s_pend s) (set_inapi (s_inapi s) s')) ;;;
+    match r with
+    | Ok _ => (fun s' => (Ok tt, s', s_pend s1)) ;;; emit (ORet 0)
+    | Exc k => emit (ORaised k)
+    end.
+
 (* _handle_commit_error                       consumer.py:731-799 *)
 Definition handle_commit_error (fk : Z) (idx attempt : Z) : M unit :=
   s <- get ;;
@@ -537,7 +558,7 @@ Definition body (k : kont) : M unit :=
         let last := List.last blk m0 in                                            (* 995 *)
         emit (OCallProc blk) ;;;                                                   (* 996 *)
         p <- pop_plan ;;
-        (if fst p =? 1 then api_stop else if fst p =? 2 then api_commit else ret tt) ;;;
+        (if fst p =? 1 then api_stop else if fst p =? 2 then api_commit else if fst p =? 3 then api_shutdown else ret tt) ;;;
         if snd p =? 2 then                                  (* the processor returned a pending Deferred *)
           upd (set_proc (Some (last, rest, false))) ;;;
           s <- get ;;
@@ -592,7 +613,10 @@ Definition body (k : kont) : M unit :=
          end
   | KShutFinish fk =>
     s <- get ;;
-    if s_stopping s || negb (is_some (s_startd s)) then interrupted                (* 364-365 / 373-374 *)
+    if s_stopping s || negb (is_some (s_startd s)) then interrupted                (* 364-365 / 381-382 *)
+    else if match fk with None => true | Some _ => false end
+            && c_group (s_cf s) && is_some (s_lp s) && negb (oz_eqb (s_lp s) (s_lc s))
+    then rec KCommitAndStop             (* 366-373: more was processed while that commit was under way: commit it *)
     else
     upd (set_shutd false) ;;;                                                      (* 353 / 364 *)
     rec KStop ;;;                                                                  (* 354 / 365 *)
@@ -659,20 +683,7 @@ Definition handle (fuel : nat) (e : event) : M unit :=
       end
     end
   | EStop => api_stop rec
-  | EShutdown =>                                                                   (* consumer.py:340-406 *)
-    if negb (is_some (s_startd s)) || s_shutd s then                               (* 378-382 *)
-      emit (OShutD false X_RESTOP (s_lc s)) ;;; emit (ORet 0)
-    else
-      upd (fun s => set_inapi 3 (set_shutd true                                    (* 402-413 *)
-                      (if s_maxatt s =? 0 then set_susp true (set_maxatt 2 (set_shutting true s)) else set_shutting true s))) ;;;
-      r <- try (match s_proc s with                                                (* 399-403 *)
-                | Some (l, rs, _) => upd (set_proc (Some (l, rs, true)))
-                | None => rec KCommitAndStop
-                end) ;;
-      match r with
-      | Ok _ => flush_pend true ;;; emit (ORet 0)
-      | Exc k => flush_pend false ;;; emit (ORaised k)
-      end
+  | EShutdown => api_shutdown rec                                                  (* consumer.py:341-424 *)
   | ECommit => api_commit
   | EReqOk v =>
     match s_req s with
@@ -792,9 +803,9 @@ Definition invs (n0 : Z) (s : state) : list bool :=
   ; Bool.eqb (s_shutd s) (s_shutting s) && implb (s_shutd s) (has_cont s)                             (* 5 *)
   ; implb (is_none (s_startd s)) (is_none (s_req s) && is_none (s_proc s) && is_none (s_mblock s)
                                   && negb (rcall_active s) && negb (looper_armed s) && negb (s_shutting s))   (* 6 *)
-  ; implb (existsb is_cdshut (s_cds s)) (s_shutting s && is_none (s_proc s))                          (* 7 *)
-  ; implb (s_shutting s && is_none (s_proc s) && existsb is_cdshut (s_cds s))
-          (match s_creq s with Some (off, _, _) => oz_eqb off (s_lp s) | None => true end)            (* 8 *)
+  ; implb (existsb is_cdshut (s_cds s)) (s_shutting s)                                                (* 7 *)
+  ; true     (* 8: retired - since shutdown() may be called from inside the processor the commit it waits for need not
+                carry last_processed; consumer.py:366-373 commits again instead *)
   ; (1 <=? s_att s) && (0 <=? s_ridx s)                                                               (* 9 *)
   ; (s_inapi s =? 0) && is_nil (s_pend s) && negb (s_stopping s)                                      (* 10 *)
   ; if s_susp s then (n0 =? 0) && (s_maxatt s =? 2) && s_shutting s else s_maxatt s =? n0             (* 11 *)
